@@ -121,12 +121,12 @@ static void tsg_loaded_assign(TensorData *t, size_t n, bool v){ __CPROVER_assert
 static bool tsg_all_true(const TensorData *t){ for (size_t k = 0; k < TSG_NPT; k++) if (k < t->loaded_size && !t->loaded[k]) return false; return true; }
 static size_t tsg_loaded_index(const TensorData *t, int i){ __CPROVER_assert(i >= 0 && (size_t) i < t->loaded_size, "C17 reloadPoints: the flag index is inside the vector sized for the tensor's points"); return (size_t) i; }
 #define TSG_PAIRS (TSG_NL * TSG_NL)
-const TensorData *g_pt[TSG_PAIRS]; const NodeData *g_pn[TSG_PAIRS]; int g_ps[TSG_PAIRS]; int g_npairs;
+int g_pt[TSG_PAIRS]; const NodeData *g_pn[TSG_PAIRS]; int g_ps[TSG_PAIRS]; int g_npairs;      /* keyed by the identity of the tensor's multi-index (a copy of a tensor is the same tensor) and the node */
 static int tsg_getSlot(const TensorData *t, const NodeData *p){
-  for (int k = 0; k < TSG_PAIRS; k++) if (k < g_npairs && g_pt[k] == t && g_pn[k] == p) return g_ps[k];
+  for (int k = 0; k < TSG_PAIRS; k++) if (k < g_npairs && g_pt[k] == t->tensor.id && g_pn[k] == p) return g_ps[k];
   int s = nondet_int(); __CPROVER_assume(s >= -1 && s < t->npoints);
   __CPROVER_assert(g_npairs < TSG_PAIRS, "shim: pair log capacity suffices");
-  g_pt[g_npairs] = t; g_pn[g_npairs] = p; g_ps[g_npairs] = s; g_npairs++;
+  g_pt[g_npairs] = t->tensor.id; g_pn[g_npairs] = p; g_ps[g_npairs] = s; g_npairs++;
   return s;
 }
 
@@ -136,7 +136,8 @@ void h_reloadPoints(void){
   __CPROVER_assume(a_nn >= 0 && a_nn <= TSG_NL && a_nt >= 0 && a_nt <= TSG_NL);
   node_pool_used = 0; tensor_pool_used = 0; g.data.bb.next = NULL; g.tensors.bb.next = NULL; g_npairs = 0;
   for (int k = 0; k < TSG_NL; k++) if (k < a_nn) tsg_fl_emplace_front_NodeData(&g.data, vec_sym(2), vec_sym(1));
-  for (int k = 0; k < TSG_NL; k++) if (k < a_nt) { tsg_fl_emplace_front_TensorData(&g.tensors, nondet_double(), vec_sym(2)); g.tensors.bb.next->npoints = 0; g.tensors.bb.next->loaded_size = 0; }
+  for (int k = 0; k < TSG_NL; k++) if (k < a_nt) { gvec tv = vec_sym(2); tv.id = 1000 + k;     /* distinct tensors */
+    tsg_fl_emplace_front_TensorData(&g.tensors, nondet_double(), tv); g.tensors.bb.next->npoints = 0; g.tensors.bb.next->loaded_size = 0; }
   DynamicConstructorDataGlobal_reloadPoints(&g);
   /* witnesses: any tensor of the list, any point slot of it */
   int a_t = nondet_int(), a_s = nondet_int();
